@@ -15,7 +15,7 @@ SRC = os.environ.get("VFW_REPO", "/repo").rstrip("/") + "/src/conductor"
 
 
 class AbortInjector:
-    def __init__(self, k=None, exc_factory=None, start_after="register_signal_handlers", target=None, granularity="line"):
+    def __init__(self, k=None, exc_factory=None, start_after="register_signal_handlers", target=None, granularity="line", start_in=None):
         """k: fire at the k-th armed line event.  target=(file, line, nth): fire at the nth time that line is reached
         (robust against per-process differences in event numbering; used by replays)."""
         self.k = k
@@ -28,8 +28,9 @@ class AbortInjector:
         self.per_line = {}
         self.nth = None
         self.count = 0
-        self.armed = start_after is None
+        self.armed = start_after is None and start_in is None
         self.start_after = start_after
+        self.start_in = start_in      # (file suffix, function name): armed from the first event inside that function
         self.fired_at = None
         self.skipped_finalizer = False
         self.exc_factory = exc_factory
@@ -56,6 +57,9 @@ class AbortInjector:
         return None
 
     def _local(self, frame, event, arg):
+        if not self.armed and self.start_in is not None and frame.f_code.co_name == self.start_in[1] \
+                and frame.f_code.co_filename.endswith(self.start_in[0]):
+            self.armed = True
         if event == "return":
             if not self.armed and frame.f_code.co_name == self.start_after:
                 self.armed = True
